@@ -2,7 +2,7 @@
 
 PROP = dict(
     module="JadeModel.Props.C16", ns="Jade.C16",
-    required=[
+    required=["C16_node_hooks_on_every_node", 
         "C16_round_trace", "C16_node_trace", "C16_local_order",
         "C16_round_commands", "C16_node_commands",
         "C16_no_setup_after_first_call", "C16_setup_first", "C16_setup_exactly_once", "C16_setup_before_everything",
@@ -29,7 +29,7 @@ PROP = dict(
                "environment; a node / call does exactly what it does without commands unless the (node) setup command FAILS — "
                "then it aborts before any job runs (check_run_command; stated as C16_failing_*).  What each statement kind "
                "does and that real runs follow the programs is tied by differential testing of whole simulated submissions "
-               "(real entry points, fake subprocess boundary).",
+               "(real entry points, fake subprocess boundary). Multi-node allocations: the node setup/teardown statements are guarded by the configuration only, never by the node id or manager flag (C16_node_hooks_on_every_node, generated), so the per-node statements hold on every node of an allocation.",
     level_note="Trusted: Lean kernel (+propext, Classical.choice, Quot.sound), tools/extract.py + tools/sites/lifecycle.py "
                "(AST -> programs; anything unrecognised makes the site stale, never silently skipped), harness/vcluster.py "
                "(deterministic simulation, fake subprocess/lock/time boundary) and the `lifecycle`/`system` suites.  Modelled, "
